@@ -222,6 +222,16 @@ func getPrevSnapshot(testID, snapPath string) (string, int, error) {
 		l := s.Bytes()
 		if !bytes.Equal(l, tid) {
 			lineNumber++
+			// any other non blank line is the id of another snapshot,
+			// skip its data as they can contain lines looking like test ids
+			if len(l) > 0 {
+				for s.Scan() {
+					lineNumber++
+					if bytes.Equal(s.Bytes(), endSequenceByteSlice) {
+						break
+					}
+				}
+			}
 			continue
 		}
 		var snapshot strings.Builder
@@ -288,6 +298,17 @@ func updateSnapshot(testID, snapshot, snapPath string) error {
 		updatedSnapFile.Write(b)
 		updatedSnapFile.WriteByte('\n')
 		if !bytes.Equal(b, tid) {
+			// any other non blank line is the id of another snapshot,
+			// copy its data as they can contain lines looking like test ids
+			if len(b) > 0 {
+				for s.Scan() {
+					updatedSnapFile.Write(s.Bytes())
+					updatedSnapFile.WriteByte('\n')
+					if bytes.Equal(s.Bytes(), endSequenceByteSlice) {
+						break
+					}
+				}
+			}
 			continue
 		}
 
